@@ -10,6 +10,14 @@ CHECKS = {
    text="TLC exhaustively checks first-match/default/refusal/exactly-one on Mux.tla for every route table reachable by registration (<=2 routes over 54 route kinds, thorough <=3 over a reduced alphabet) and every request; the same tables are emitted by TLC, built in the real Mux through the public API, exercised with every request over a real TCP connection, and the observations are validated by TLC (MuxTrace) against Serve() of the spec. Complete within the symbolic alphabet; the alphabet is the bound.",
    note="Trusts: data independence of Mux matching outside the enumerated positions (operation, case-folded base DN / filter, scope, extended name); the harness's strict BER parser; OnClose as the end-of-handlers barrier. Filter criteria are restricted to ASCII (go-ldap decompiles non-ASCII filter values to escaped form).",
    technique="TLA+ spec Mux.tla model-checked with TLC; TLC-generated route tables replayed on the real Mux/server; observations validated by TLC trace spec MuxTrace"),
+"C19": dict(level=MC, design="DESIGN.md §3.6, §7 C19",
+   text="TLC checks C19Holds (the property as stated) against BindResult (the handler's rule) for every directory state reachable through SetUsers/SetAllowAnonymousBind (user sets of <=2, thorough <=3, entries over prefix-related/case-variant DNs x six password-attribute shapes) and every bind; the same states are installed in real test directories and every bind is sent over plain, TLS and StartTLS connections; TLC (Dir19Trace) compares each result code with the spec. In addition bind-focused operation histories (add/modify/delete/Set*/bind, exhaustive to depth 3, thorough 4, plus TLC -simulate) are replayed and validated by Dir20Trace.BindConforms. Complete within the alphabets.",
+   note="Trusts: data independence of handleBind in DN/password content beyond equality, prefix and case relations (the symbols' concretisation varies with VERIF_SEED); the harness's BER encoder/parser.",
+   technique="TLA+ spec Directory.tla/Dir19.tla model-checked with TLC; TLC-generated directory states and bind-focused histories replayed on the real testdirectory; observations validated by TLC trace specs Dir19Trace/Dir20Trace"),
+ "C20": dict(level=MC, design="DESIGN.md §3.6, §7 C20",
+   text="Directory.tla is a state machine with one action per handler and Set* method. TLC checks it (UniqueUserDNs, CodesOK and the action properties AddFound/DeleteGone/ModifyMissing) and, through a history variable, enumerates every operation sequence of length 2 (thorough 3) over a pool of users, a group and new DNs, plus -simulate behaviours of length 12 (thorough 30). Each behaviour is replayed on real plain and TLS test directories by two alternating clients; after every operation all pool DNs are searched. The recorded trace (arguments, result code, search results) is validated by TLC against Dir20Trace, whose actions are the Directory actions with the logged arguments (ReplyConforms, SearchConforms, NotStuck).",
+   note="Trusts: DN pool is ASCII and substring-free (precondition of the property); attributes compared as sets of (name, bag of values), values as plain or BER-wrapped; replace only generated for existing attributes.",
+   technique="TLA+ state machine Directory.tla/Dir20.tla model-checked with TLC; TLC-generated behaviours replayed on the real testdirectory; recorded traces validated by TLC trace spec Dir20Trace"),
 }
 NOT_YET = "check not built yet (work in progress)"
 
